@@ -21,3 +21,10 @@ def gen(n):
         a = g(k)
         yield a
     return n
+
+
+def drive(run):
+    """the instrumented function the driver's own code may be running in (C09: selectors of the caller's enclosing
+    functions keep matching): `run` executes the inner part of a history - calls of g, generator operations"""
+    r = run()
+    return r
